@@ -23,7 +23,19 @@ def run_tool(tool, seed, n, extra=(), lift=None, timeout=3600, outdir=None, pige
     cmd += extra
     p = subprocess.run(cmd, stdout=subprocess.PIPE, stderr=subprocess.PIPE, timeout=timeout, env=core.goenv(True), stdin=subprocess.DEVNULL)
     if p.returncode != 0:
-        raise RuntimeError("%s failed (%d): %s" % (tool, p.returncode, p.stderr.decode()[-2000:]))
+        # the TOOL itself died (not a verdict about pigeon). Seen once in a fresh sandbox: a Go runtime fatal error with a
+        # full goroutine dump 3 s into pve2e, i.e. the process could not get a resource (threads / memory) while 16 go
+        # builds were running. Retry once, sequentially enough to fit anywhere, before giving up.
+        err1 = p.stderr.decode(errors="replace")
+        log("%s died (exit %d): %s ... retrying with -j 2" % (tool, p.returncode, err1[:300].replace("\n", " | ")))
+        time.sleep(5)
+        shutil.rmtree(outdir, ignore_errors=True)
+        os.makedirs(outdir, exist_ok=True)
+        cmd2 = cmd + (["-j", "2"] if tool in ("pve2e", "pvlower") else [])
+        p = subprocess.run(cmd2, stdout=subprocess.PIPE, stderr=subprocess.PIPE, timeout=timeout, env=core.goenv(True), stdin=subprocess.DEVNULL)
+        if p.returncode != 0:
+            e = p.stderr.decode(errors="replace")
+            raise RuntimeError("%s failed twice (%d): FIRST RUN: %s\n...\n%s\nSECOND RUN: %s\n...\n%s" % (tool, p.returncode, err1[:1500], err1[-500:], e[:1500], e[-500:]))
     out = p.stdout.decode()
     return json.loads(out[out.index("{"):])
 
@@ -90,7 +102,8 @@ def generic(prop, cfg, tier, seed, parts, extra_viol=(), extra_cov=None, extra_k
         reports[tool] = {k: r.get(k) for k in ("evaluations", "distinct_nontrivial", "failure_count", "failures_by_kind", "wall_s", "stats")}
         total_eval += r.get("evaluations", 0)
         total_dist += r.get("distinct_nontrivial", 0)
-        for f in r.get("failures") or []:
+        # failures that carry a concrete failing input first: only three replays are written
+        for f in sorted(r.get("failures") or [], key=lambda f: 1 if f.get("kind") == "validator-reject" else 0):
             f = keep_failure_file(prop, dict(f))
             f["tool"] = tool
             f["replay_cmd"] = "/verif/build/bin/%s -seed %d -n %d -pigeon /verif/build/bin/pigeon %s   (or feed the saved file)" % (tool, seed, n, " ".join(extra))
